@@ -43,10 +43,18 @@ def mk_raw(v, kind):
 
 
 class Builder:
-    def __init__(self, decls):
+    def __init__(self, decls, fresh_leaves=False, buffers=None):
         import optyx
 
         self.ox = optyx
+        # fresh_leaves: every mention of a scalar variable (`a`, `x[2]`) is a *new* Variable object with the declared name, bounds and
+        # domain - optyx identifies a variable by its name, so a helper returning Variable(f"x{i}") on every call is a legal model
+        self.fresh_leaves = fresh_leaves
+        self.leaf_kw = {}
+        # buffers: a dict shared between Builders - data arrays are then written *in place* into one ndarray per (site, shape), the way a
+        # rolling-window script refreshes its covariance buffer and builds a new model per period
+        self.buffers = buffers
+        self._nbuf = {}
         self.env = {}
         self.scalars = {}  # scalar variable name -> Variable object
         self.params = {}  # scalar parameter name -> Parameter object
@@ -67,10 +75,16 @@ class Builder:
         if k == "var":
             o = ox.Variable(name, **kw)
             self.scalars[name] = o
+            self.leaf_kw[name] = dict(kw)
         elif k == "vec":
-            o = ox.VectorVariable(name, d["n"], **kw)
+            if d.get("via") == "from_numpy":
+                # the alternative constructor: size taken from a data array
+                o = ox.VectorVariable.from_numpy(name, np.linspace(1.0, 2.0, d["n"]), **kw)
+            else:
+                o = ox.VectorVariable(name, d["n"], **kw)
             for v in o:
                 self.scalars[v.name] = v
+                self.leaf_kw[v.name] = dict(kw)
         elif k == "mat":
             if d.get("sym"):
                 kw["symmetric"] = True
@@ -91,6 +105,19 @@ class Builder:
         else:
             raise ValueError(k)
         self.env[name] = o
+
+    def farr(self, values, site=""):
+        a = np.array(values, dtype=float)
+        if self.buffers is None:
+            return a
+        # the k-th array of this shape written by this model goes to the k-th buffer: two arrays of one model never share storage
+        self._nbuf[(site, a.shape)] = k = self._nbuf.get((site, a.shape), 0) + 1
+        key = (site, a.shape, k)
+        buf = self.buffers.get(key)
+        if buf is None:
+            buf = self.buffers[key] = np.empty(a.shape, dtype=float)
+        buf[...] = a
+        return buf
 
     # ------------------------------------------------------------------
     def any(self, n):
@@ -117,6 +144,8 @@ class Builder:
         ox = self.ox
         k = n[0]
         if k == "var":
+            if self.fresh_leaves and n[1] in self.leaf_kw:
+                return ox.Variable(n[1], **self.leaf_kw[n[1]])
             return self.env[n[1]]
         if k == "const":
             return ox.Constant(mk_raw(n[1], n[2] if len(n) > 2 else None))
@@ -127,6 +156,10 @@ class Builder:
         if k == "pel":
             return self.env[n[1]][n[2]]
         if k == "el":
+            if self.fresh_leaves and n[1][0] == "vec":
+                nm = self.V(n[1])[n[2]].name
+                if nm in self.leaf_kw:
+                    return ox.Variable(nm, **self.leaf_kw[nm])
             return self.V(n[1])[n[2]]
         if k == "mel":
             return self.M(n[1])[n[2], n[3]]
@@ -152,9 +185,9 @@ class Builder:
 
             return norm(v, n[2])
         if k == "qf":
-            return ox.quadratic_form(self.V(n[1]), np.array(n[2], dtype=float))
+            return ox.quadratic_form(self.V(n[1]), self.farr(n[2], "qf"))
         if k == "dotQ":
-            return self.V(n[1]).dot(np.array(n[2], dtype=float) @ self.V(n[3]))
+            return self.V(n[1]).dot(self.farr(n[2], "dotQ") @ self.V(n[3]))
         if k == "dotP":
             return self.V(n[1]).dot(self.env[n[2]] @ self.V(n[3]))
         if k == "msum":
@@ -190,7 +223,8 @@ class Builder:
         if k == "diagf":
             return ox.diag(self.M(n[1]))
         if k == "arr":
-            return np.array(n[1])
+            a = np.array(n[1])
+            return self.farr(n[1], "arr") if self.buffers is not None and a.dtype == float else a
         if k == "list":
             return list(n[1])
         if k == "tuple":
@@ -208,9 +242,9 @@ class Builder:
         if k == "mv":
             v = self.V(n[2])
             if isinstance(v, ox.VectorVariable):
-                return np.array(n[1], dtype=float) @ v
+                return self.farr(n[1], "mv") @ v
             # `2-D array @ VectorExpression` is not an operator form of the API; the public function is
-            return ox.matmul(np.array(n[1], dtype=float), v)
+            return ox.matmul(self.farr(n[1], "mv"), v)
         if k == "Mv":
             return self.M(n[1]) @ self.V(n[2])
         if k == "velems":
@@ -231,7 +265,8 @@ class Builder:
         if k == "dmat":
             return ox.diag_matrix(self.V(n[1]))
         if k == "arr2":
-            return np.array(n[1])
+            a = np.array(n[1])
+            return self.farr(n[1], "arr2") if self.buffers is not None and a.dtype == float else a
         if k == "list2":
             return [list(r) for r in n[1]]
         if k == "mbin":
